@@ -87,6 +87,8 @@ def str_snapshot(cache):
 
 def direct_oracles(script, cache_vals, cfg, want):
     """Runs the implementation alone with monitors; returns {pid: [violation text]}"""
+    import copy
+    cache_vals = copy.deepcopy(cache_vals)
     out = {}
     log = tsh.Log()
     tsh.Pins.ridx = 0
@@ -134,7 +136,8 @@ def c08_alias_probes():
     cfg = tsh.Cfg()
     viol, runs = [], 0
     kinds = [('ba', lambda: bytearray(b'\x0f\xf0\x01')), ('bs', lambda: b'\x0f\xf0\x01'),
-             ('lst', lambda: [b'\x01', bytearray(b'\x02\x03')]), ('txt', lambda: 'abc'), ('num', lambda: 7)]
+             ('lst', lambda: [b'\x01', bytearray(b'\x02\x03')]), ('txt', lambda: 'abc'), ('num', lambda: 7),
+             ('lst', lambda: [5, 'abc', 2.5, b'zz']), ('lst', lambda: (5, 'abc', 2.5))]
     others = [b'\x01' * 9, b'\x01', b'\x01\x02\x03', b'']
     gv = lambda k: bytes([gen.OPC['OP_GET_VALUE'], len(k)]) + k.encode()
     psh = lambda b: bytes([gen.OPC['OP_PUSH1'], len(b)]) + b
